@@ -143,6 +143,7 @@ func searchBase(res interface{}, err error, panicked bool) string {
 var (
 	histCalls int
 	histKept  [][3]string // expression, document, answer
+	lastOK    [3]string   // the most recent successful one-shot search
 )
 
 func historyCheck(o *outcome) {
@@ -209,6 +210,20 @@ func doSearch(expr string, docText string, unordered bool) (o outcome) {
 	if jmespath.VerifCanon(doc) != before {
 		o.flags = append(o.flags, "docmut")
 	}
+	// a call that failed leaves nothing behind: the last search that succeeded still succeeds, with the same answer
+	if err != nil && lastOK[0] != "" {
+		if d2, e := parseCanon(lastOK[1]); e == nil {
+			var r2 interface{}
+			var e2 error
+			p2, _ := safely(func() { r2, e2 = jmespath.Search(lastOK[0], d2) })
+			if got := searchBase(r2, e2, p2); got != lastOK[2] {
+				o.flags = append(o.flags, "afterfailure:"+hexField(lastOK[0])+":first="+truncate(lastOK[2], 80)+":now="+truncate(got, 80))
+			}
+		}
+	}
+	if !p && err == nil && !unordered && !mayObserveOrder(expr) && len(docText) < 4000 {
+		lastOK = [3]string{expr, docText, o.base}
+	}
 	if !p && err == nil {
 		c := o.base
 		if strings.Contains(c, "?") || strings.Contains(c, "nil[") || strings.Contains(c, "nil{") {
@@ -229,7 +244,13 @@ func doSearch(expr string, docText string, unordered bool) (o outcome) {
 	if !p {
 		var jp *jmespath.JMESPath
 		var cerr error
-		if cp, _ := safely(func() { jp, cerr = jmespath.Compile(expr) }); !cp && cerr == nil && jp != nil {
+		cp, _ := safely(func() { jp, cerr = jmespath.Compile(expr) })
+		// Compile accepts exactly the expressions the one-shot Search parses
+		_, syn := err.(jmespath.SyntaxError)
+		if cp || (err == nil && cerr != nil) || (syn && cerr == nil) {
+			o.flags = append(o.flags, "compileaccepts")
+		}
+		if !cp && cerr == nil && jp != nil {
 			for i := 0; i < 2; i++ {
 				var r2 interface{}
 				var e2 error
